@@ -83,6 +83,10 @@ def windows(sc):
     return ws, final
 
 
+def is_race(sc):
+    return sc["cfg"].split("\t")[1] == "2"
+
+
 def conn_of_instances(sc):
     """instance -> connection, from the window in which the instance's Assigner ran (the goroutine of
     connection k runs newService and Assigner in the window of `rel loop.conn k`, or of `env accept k`
@@ -91,6 +95,8 @@ def conn_of_instances(sc):
     ws, _ = windows(sc)
     inst_conn = {}
     users = {}
+    if is_race(sc):      # no quiescence between actions: which connection an instance serves is not known
+        return {}, None
     for head, obs in ws:
         k = None
         if hooks and head[0] == "rel" and head[1] == "loop.conn" and len(head) > 2:
@@ -119,6 +125,7 @@ def mon_fresh_service(sc):
     if err:
         return err
     seen_new, seen_asg = set(), {}
+    race = is_race(sc)
     for head, obs in ws:
         ran = (hooks and head[0] == "rel" and head[1] == "loop.conn") or (not hooks and head[0] == "env" and head[1] == "accept")
         nnew = 0
@@ -134,10 +141,12 @@ def mon_fresh_service(sc):
                 seen_asg[o[1]] = o[2]
                 if o[1] not in seen_new:
                     return "Assigner called on instance %s, which no newService call of this Loop returned" % o[1]
-            if o[0] == "call":
+            if o[0] == "call" and not race:
                 k, a = int(o[1]), int(o[2])
                 if inst_conn.get(a) != k:
                     return "a call on connection %d was served by the assigner of instance %d (connection %s)" % (k, a, inst_conn.get(a))
+        if race:
+            continue
         if ran and nnew != 1:
             return "the goroutine of a connection made %d newService calls (expected exactly one, its own)" % nnew
         if not ran and nnew:
@@ -156,6 +165,48 @@ def mon_finish(sc):
     ctx = False
     closed, failed = set(), set()
     inflight = {}
+    # first cause per connection (C08: the first cause to reach a running server decides its status): the
+    # causes present when the window in which the server started ends are concurrent (any of them); if
+    # there is none, the first cause of a later window wins
+    first = {}
+    started_conns = set()
+    for head, obs in ws:
+        if head[0] == "env":
+            for k in started_conns:
+                if k not in first:
+                    if head[1] == "ctxend":
+                        first[k] = {"stopped"}
+                    elif head[1] == "close" and int(head[2]) == k:
+                        first[k] = {"closed"}
+                    elif head[1] == "pfail" and int(head[2]) == k:
+                        first[k] = {"failed"}
+        for o in obs:
+            if o[0] == "assigner" and o[2] == "ok" and int(o[1]) in inst_conn:
+                started_conns.add(inst_conn[int(o[1])])
+        if head[0] == "env":
+            pass
+    # causes pending at the start window
+    first_at_start = {}
+    c2, cl2, fl2 = False, set(), set()
+    for head, obs in ws:
+        if head[0] == "env":
+            if head[1] == "ctxend":
+                c2 = True
+            elif head[1] == "close":
+                cl2.add(int(head[2]))
+            elif head[1] == "pfail":
+                fl2.add(int(head[2]))
+        for o in obs:
+            if o[0] == "assigner" and o[2] == "ok" and int(o[1]) in inst_conn:
+                k = inst_conn[int(o[1])]
+                pend = set()
+                if c2:
+                    pend.add("stopped")
+                if k in cl2:
+                    pend.add("closed")
+                if k in fl2:
+                    pend.add("failed")
+                first_at_start[k] = pend
     for head, obs in ws:
         if head[0] == "env":
             if head[1] == "ctxend":
@@ -197,6 +248,10 @@ def mon_finish(sc):
                 if st not in causes:
                     return "Finish on instance %d (connection %d) received status %s; the server can only have exited with %s" % (
                         i, k, st, "/".join(sorted(causes)))
+                want = first_at_start.get(k) or first.get(k)
+                if want and st not in want:
+                    return ("Finish on instance %d (connection %d) received status %s, but the first cause that stopped its "
+                            "server was %s (later causes do not change a server's exit status)") % (i, k, st, "/".join(sorted(want)))
     if sc["complete"]:
         for i, r in asg.items():
             if r == "ok" and i not in finished:
@@ -218,7 +273,8 @@ def mon_returns_last(sc):
         for o in obs:
             if o[0] == "assigner":
                 if returned is not None:
-                    return "a connection was still being started after Loop returned"
+                    return ("Loop returned before every accepted connection was finished: the service of an accepted "
+                            "connection was still being started after the return")
                 asg[int(o[1])] = o[2]
             elif o[0] == "finish":
                 if returned is not None:
